@@ -683,6 +683,179 @@ fn guard_differential(ev: &mut Ev, cx: &mut Cx, seed: u64, n: u64) {
     }
 }
 
+/// (a') by-name field access: `f = #U { $.x }` accepted / rejected (and the emitted `Get(index)`,
+/// the result type) against the Lean model of `get_field_by_name`.
+fn field_differential(ev: &mut Ev, cx: &mut Cx, seed: u64, n: u64) {
+    use gen_::{G, GTy};
+    for i in 0..n {
+        let mut r = Rng::for_case(seed ^ 0xF1E1D, i);
+        let mut g = G::new(&mut r);
+        // a union of 1..3 variants, most of them labelled tuples sharing the label `x`
+        let nv = 1 + g.r.usize(3);
+        let mut vs: Vec<GTy> = vec![];
+        for k in 0..nv {
+            let v = match g.r.below(10) {
+                0 => g.leaf_ty(),
+                1 => g.tuple_ty(0),
+                _ => {
+                    let mut fs: Vec<(Option<String>, GTy)> = vec![];
+                    if g.r.chance(9, 10) {
+                        fs.push((Some("x".into()), g.leaf_ty()));
+                    }
+                    for l in ["y", "z"] {
+                        if g.r.chance(1, 2) {
+                            fs.push((Some(l.to_string()), g.leaf_ty()));
+                        }
+                    }
+                    if fs.is_empty() {
+                        fs.push((Some("x".into()), GTy::Int));
+                    }
+                    g.r.shuffle(&mut fs);
+                    let name = if g.r.chance(3, 4) { Some(["A", "B", "C"][k].to_string()) } else { None };
+                    GTy::Tup(name, fs)
+                }
+            };
+            if !vs.contains(&v) {
+                vs.push(v);
+            }
+        }
+        let u = if vs.len() == 1 { vs[0].clone() } else { GTy::Union(vs) };
+        let src = format!("f = #{} {{ $.x }},\n&f", u.param_src());
+        let helper = format!("f = #{} {{ 0 }},\n&f", u.param_src());
+        // the parameter type id and the table come from the helper (always accepted)
+        let Ok(uh) = front(&helper, cx) else {
+            ev.hit("field:type-not-accepted");
+            continue;
+        };
+        let Some(Type::Callable { parameter: pu, .. }) = uh.program.get_types().get(uh.compiled_result_type).cloned() else { continue };
+        let real = match front(&src, cx) {
+            Ok(unit) => {
+                let Some(Type::Callable { parameter, result, .. }) = unit.program.get_types().get(unit.compiled_result_type).cloned() else { continue };
+                // the emitted index: the `Get` of the function whose parameter is U
+                let mut idx = None;
+                for f in unit.program.get_functions() {
+                    if let Some(Type::Callable { parameter: p2, .. }) = unit.program.get_types().get(f.type_id)
+                        && *p2 == parameter
+                    {
+                        for ins in &f.instructions {
+                            if let quiver_core::bytecode::Instruction::Get(k) = ins {
+                                idx = Some(*k);
+                            }
+                        }
+                    }
+                }
+                // ask the model on THIS program's table (ids of the result type are comparable)
+                let mut it = Interner::default();
+                let table = table_sx(unit.program.get_types(), unit.program.get_tuples(), &mut it);
+                let _ = cx.model.ask(&table);
+                let xid = it.id("x");
+                let m = cx.model.ask(&format!("(field {parameter} {xid})"));
+                (format!("ok {} {result}", idx.map(|k| k.to_string()).unwrap_or("?".into())), m, table)
+            }
+            Err(j) if j.kind == Kind::Rejected => {
+                let mut it = Interner::default();
+                let table = table_sx(uh.program.get_types(), uh.program.get_tuples(), &mut it);
+                let _ = cx.model.ask(&table);
+                let xid = it.id("x");
+                let m = cx.model.ask(&format!("(field {pu} {xid})"));
+                let cls = if j.detail.contains("MemberAccessOnNonTuple") {
+                    "non-tuple"
+                } else if j.detail.contains("MemberFieldNotFound") {
+                    "not-found"
+                } else {
+                    "rejected-other"
+                };
+                (cls.to_string(), m, table)
+            }
+            Err(_) => {
+                ev.hit("field:front-other");
+                continue;
+            }
+        };
+        let (impl_out, model_out, table) = real;
+        // model answer `ok idx rid (tys)` -> compare `ok idx rid`
+        let model_cmp = if model_out.starts_with("ok") {
+            model_out.split_whitespace().take(3).collect::<Vec<_>>().join(" ")
+        } else {
+            model_out.clone()
+        };
+        ev.case(&src, true);
+        ev.hit(&format!("field:{}", impl_out.split_whitespace().next().unwrap_or("")));
+        ev.sample_sparse(i, 300, || json!({"kind": "field-access", "type": u.src(), "impl": impl_out, "model": model_out}));
+        if impl_out != model_cmp {
+            ev.violation(
+                &format!("field-differential impl={} model={}", impl_out.split_whitespace().next().unwrap_or(""), model_cmp.split_whitespace().next().unwrap_or("")),
+                &format!("by-name field access `$.x` on `{}`: compiler `{impl_out}`, model of get_field_by_name `{model_out}`", u.src()),
+                json!({"broken": "correspondence model<->impl on get_field_by_name (verdict, Get index, result type id)",
+                       "source": src, "impl": impl_out, "model": model_out, "table": table}),
+                false,
+            );
+        }
+    }
+}
+
+/// (a'') nil-ability of `,`-sequences: the function `f = #(A['int] | B) { s1, …, sn }` is compiled and
+/// "the result type contains nil" is compared with the Lean model of compile_sequence's nil
+/// bookkeeping, fed with the own nil-ability of every chain (known by construction).
+fn sequence_differential(ev: &mut Ev, cx: &mut Cx, seed: u64, n: u64) {
+    for i in 0..n {
+        let mut r = Rng::for_case(seed ^ 0x5E90, i);
+        let len = 2 + r.usize(4);
+        let mut steps: Vec<String> = vec![];
+        let mut own: Vec<bool> = vec![];
+        let mut used_param_match = false;
+        for k in 0..len {
+            let last = k + 1 == len;
+            if r.chance(1, 3) {
+                // a chain that can be nil: a type match on a partial function's result (the literal
+                // argument gives the dispatch nothing to specialise), or one match on the parameter
+                if !used_param_match && r.chance(1, 3) {
+                    used_param_match = true;
+                    steps.push(format!("$ =A[a{k}]"));
+                } else {
+                    steps.push(format!("{k} opt ='int"));
+                }
+                own.push(true);
+            } else {
+                steps.push(match r.below(4) {
+                    0 => format!("y{k} = {k}"),
+                    1 => format!("{}", 7 + k),
+                    2 => format!("{k} inc"),
+                    _ if last => "R".to_string(),
+                    _ => format!("y{k} = {k} inc"),
+                });
+                own.push(false);
+            }
+        }
+        let src = format!(
+            "inc = #'int {{ [$, 1] __integer_add__ }},\nopt = #'int {{ =0 => 5 }},\nf = #(A['int] | B) {{ {} }},\n&f",
+            steps.join(", ")
+        );
+        let Ok(unit) = front(&src, cx) else {
+            ev.hit("sequence:not-accepted");
+            continue;
+        };
+        let Some(Type::Callable { result, .. }) = unit.program.get_types().get(unit.compiled_result_type).cloned() else { continue };
+        let is_nil = |t: usize| matches!(unit.program.get_types().get(t), Some(Type::Tuple(id)) if *id == quiver_core::types::NIL);
+        let has_nil = is_nil(result)
+            || matches!(unit.program.get_types().get(result), Some(Type::Union(ids)) if ids.iter().any(|x| is_nil(*x)));
+        let flags: String = own.iter().map(|b| if *b { " 1" } else { " 0" }).collect();
+        let m = cx.model.ask(&format!("(seq{flags})"));
+        let impl_out = if has_nil { "nil" } else { "no-nil" };
+        ev.case(&src, true);
+        ev.hit(&format!("sequence-typing:{impl_out}"));
+        ev.sample_sparse(i, 300, || json!({"kind": "sequence", "steps": steps, "own_nilable": own, "impl": impl_out, "model": m}));
+        if m != impl_out {
+            ev.violation(
+                &format!("sequence-differential impl={impl_out} model={m}"),
+                &format!("nil-ability of the sequence `{}`: compiler types it `{impl_out}`, model of compile_sequence `{m}` (own nil-ability of the chains: {own:?})", steps.join(", ")),
+                json!({"broken": "correspondence model<->impl on the nil bookkeeping of compile_sequence", "source": src, "own_nilable": own, "impl": impl_out, "model": m}),
+                false,
+            );
+        }
+    }
+}
+
 fn abstract_leaves(t: &gen_::GTy, g: &mut gen_::G) -> gen_::GTy {
     use gen_::GTy;
     let v = |g: &mut gen_::G| GTy::Var(if g.r.chance(2, 3) { "t".into() } else { "u".into() });
@@ -902,6 +1075,12 @@ fn main() {
 
     // 3. guard differential
     guard_differential(&mut ev, &mut cx, opts.seed, opts.tier.pick(1200, 40000));
+
+    // 3b. by-name field access differential
+    field_differential(&mut ev, &mut cx, opts.seed, opts.tier.pick(400, 12000));
+
+    // 3c. sequence nil-ability differential
+    sequence_differential(&mut ev, &mut cx, opts.seed, opts.tier.pick(300, 8000));
 
     // 4. the repository's own test sources (counters only; a test may expect its runtime error)
     run_repo_corpora(&mut ev, &mut cx, opts.tier.pick(100000, 100000));
